@@ -185,6 +185,41 @@ pub fn check(graph: &Graph) -> Result<(WalkStats, BTreeMap<String, (Shape, Vec<N
             }
         }
     }
+    // 8. removed versions are unreachable through the backlink index too: every id it returns for a note is a
+    //    live block that really refers to that note (a stale entry of an old version must never resolve to a block
+    //    of a newer one)
+    let mut targets: std::collections::BTreeSet<Key> = keys.iter().cloned().collect();
+    for node in nodes.iter() {
+        if node.is_empty() {
+            continue;
+        }
+        if let Some(k) = node.ref_key() {
+            targets.insert(k);
+        }
+        if let Some(l) = node.line_id() {
+            if let Ok(ks) = crate::canon::guarded(|| graph.get_line(l).ref_keys()) {
+                targets.extend(ks);
+            }
+        }
+    }
+    for key in &targets {
+        let (blocks, inlines) = match crate::canon::guarded(|| (graph.get_block_references_to(key), graph.get_inline_references_to(key))) {
+            Ok(x) => x,
+            Err(p) => return b(8, format!("asking the index for references to {} fails: {} (a stale id of a removed version)", key, p)),
+        };
+        for id in blocks {
+            let ok = (id as usize) < n && nodes[id as usize].is_reference_to(key);
+            if !ok {
+                return b(8, format!("the index lists block {} as a block reference to {}, but that block is {}", id, key, if (id as usize) < n { nodes[id as usize].to_symbol() } else { "out of range".into() }));
+            }
+        }
+        for id in inlines {
+            let ok = (id as usize) < n && nodes[id as usize].line_id().map(|l| crate::canon::guarded(|| graph.get_line(l).ref_keys().contains(key)).unwrap_or(false)).unwrap_or(false);
+            if !ok {
+                return b(8, format!("the index lists block {} as holding a link to {}, but it does not", id, key));
+            }
+        }
+    }
     Ok((WalkStats { live_nodes: live, tombstones: tomb, roots: keys.len() }, shapes))
 }
 
